@@ -307,6 +307,31 @@ def machine(col, tier):
     return InsertionMachine
 
 
+@st.composite
+def history_strategy(draw, tier="quick"):
+    """The same histories as the state machine, as one plain strategy (used by the coverage-guided supplement)."""
+    init = draw(initial_table())
+    rows = list(init["T"])
+    ops = []
+    for _ in range(draw(st.integers(1, 8))):
+        scalar = draw(st.integers(0, 4)) == 0
+        elems = [draw(ELEM)] if scalar else draw(st.lists(ELEM, min_size=0, max_size=6))
+        ts, kinds = resolve(rows, elems)
+        if scalar and len(ts) != 1:
+            continue
+        if not scalar and len(ts) > 1 and draw(st.booleans()):
+            ts = ts[::-1]
+            kinds.append("unsorted-request")
+        ops.append({"op": "insert", "T": ts, "scalar": scalar, "kinds": sorted(set(kinds))})
+        for t in ts:
+            if all(abs(t - r) > 1e-6 for r in rows):
+                rows.append(t)
+        rows.sort(reverse=True)
+    return {"init": init, "ops": ops}
+
+
+FUZZ = {"machine": history_strategy}
+
 PARTS = [
     Part(
         "machine",
